@@ -47,7 +47,7 @@ class C20(BaseCheck):
   REQUIRED_ANCHORS = ANCHORS
   REQUIRED_CLASSES = ('name:plain', 'name:x_', 'name:x__', 'name:_x', 'name:__x__', 'uri:tcp', 'uri:zk',
                       'uri:bad', 'result:error', 'result:later', 'inherited', 'function-name-differs', 'alias',
-                      'uri:tcp-read-again', 'kwargs:loaded-names', 'ancestors-proxied-first')
+                      'uri:tcp-read-again', 'kwargs:loaded-names', 'ancestors-proxied-first', 'declared:classmethod', 'declared:staticmethod')
   ASSUMPTIONS = ('public method = every user method that is not a dunder name (the property quantifies over names '
                  'with leading and trailing underscores, so _x and _x_ are judged like any other); names that collide with '
                  'another method\'s _async form or with the proxy base class are not generated',)
@@ -71,7 +71,7 @@ class C20(BaseCheck):
     levels = []
     all_methods = {}
     base = object
-    sigs = ['pos', 'default', 'varargs', 'kwargs', 'noargs']
+    sigs = ['pos', 'default', 'varargs', 'kwargs', 'noargs', 'pos', 'default', 'kwargs', 'classmethod', 'staticmethod']
     for level in range(depth):
       ns = {}
       for _ in range(rng.randint(1, 4)):
@@ -89,6 +89,10 @@ class C20(BaseCheck):
             def m(self, *args): body_calls.append(name); return 'BODY'
           elif sig == 'kwargs':
             def m(self, a=1, **kw): body_calls.append(name); return 'BODY'
+          elif sig == 'classmethod':
+            def m(cls, a=1): body_calls.append(name); return 'BODY'
+          elif sig == 'staticmethod':
+            def m(a=1): body_calls.append(name); return 'BODY'
           else:
             def m(self): body_calls.append(name); return 'BODY'
           # the attribute name is what identifies the method; the function object's own
@@ -97,10 +101,14 @@ class C20(BaseCheck):
           m.__name__ = fn_name
           if fn_name != name:
             classes.add('function-name-differs')
+          if sig in ('classmethod', 'staticmethod'):
+            # an interface member declared as a class or static method is a method of the service all the same
+            classes.add('declared:' + sig)
+            return classmethod(m) if sig == 'classmethod' else staticmethod(m)
           return m
         ns[name] = make()
         all_methods[name] = (shape, sig, level)
-        if rng.random() < 0.15 and not name.startswith('_') and ns[name].__name__ == name:
+        if rng.random() < 0.15 and not name.startswith('_') and getattr(ns[name], '__name__', None) == name:
           alias = rng.choice(['alias', 'fetch', 'lookup2']) + str(rng.randint(0, 9))
           if alias not in all_methods and alias not in ns and alias not in RESERVED:
             ns[alias] = ns[name]          # 'fetch = get'
@@ -147,6 +155,8 @@ class C20(BaseCheck):
           args, kwargs = ('s',), {'c': {'k': object()}}
           if rng.random() < 0.3:
             args, kwargs = (), {'a': 's', 'b': rng.choice([0, 4]), 'c': None}      # everything by keyword
+        elif sig in ('classmethod', 'staticmethod'):
+          args, kwargs = rng.choice([((7,), {}), ((), {'a': 8}), ((), {})])
         elif sig == 'varargs':
           args, kwargs = tuple(object() for _ in range(rng.randint(0, 4))), {}
         elif sig == 'kwargs':
